@@ -281,7 +281,21 @@ struct Proto {
       // choose the program of this generation
       static int ops[MAXT][8], cix[MAXT][8];
       bool any_update = false, any_read = false;
-      for (int t = 0; t < T; t++)
+      const int fixed = (int)opt("fixed", 0);
+      if (fixed == 1) {
+        // adversarial family "recycle behind a reader's back" (needs cells=2, T=2, m=2): a reader of cell 0 against a
+        // writer that replaces cell 0 (retiring the node the reader is about to guard) and then allocates again
+        // for cell 1 - with type-stable memory (lock_free_ref_count) the second allocation reuses the node.
+        static const int fo[2][2] = {{OP_READ, OP_NONE}, {OP_REPLACE, OP_REPLACE}};
+        static const int fc[2][2] = {{0, 0}, {0, 1}};
+        for (int t = 0; t < 2; t++)
+          for (int i = 0; i < 2; i++) {
+            ops[t][i] = fo[t][i];
+            cix[t][i] = fc[t][i];
+          }
+        any_update = any_read = true;
+      }
+      for (int t = 0; t < T && !fixed; t++)
         for (int i = 0; i < m; i++) {
           ops[t][i] = alpha[choose(na)];
           cix[t][i] = ncells > 1 ? choose(ncells) : 0;
